@@ -16,6 +16,7 @@ const VerifPrefix = "verif"
 
 func registerIntrinsics(e *Engine) {
 	I := e.Intrinsics
+	registerPSL(e)
 	// ---- strings
 	I["strings.Index"] = intrIndex
 	I["internal/stringslite.Index"] = intrIndex
@@ -299,10 +300,7 @@ func registerIntrinsics(e *Engine) {
 			}
 		}
 		if possible && (hasColon || hasDigit) {
-			if h, ok := e.Ctx["parseAddrSym"].(Intrinsic); ok {
-				return h(e, st, c, a)
-			}
-			e.fail("netip.ParseAddr on a symbolic string that may contain digits or ':'")
+			return parseAddrContract(e, st, c, a)
 		}
 		e.setResult(st, c, TupleV{E: []Value{e.zero(addrT), e.newError(st, "netip.ParseAddr: symbolic non-address")}})
 		return nil
